@@ -1037,7 +1037,11 @@ def _zip_new(w, st, fr, path, targs, args, dty):
         if n is None:
             return NOT_HANDLED
         b = Agg(("sliceiter",), 0, [b, K(0, 64), n])
-    if not (isinstance(a, Agg) and a.kind in (("sliceiter",), ("zipmodel",)) and isinstance(b, Agg) and b.kind in (("sliceiter",), ("zipmodel",))):
+    # `(k..)`: an unbounded counter (RangeFrom over an integer)
+    if isinstance(a, Agg) and a.kind[0] == "adt" and a.kind[1].endswith("::RangeFrom") and len(a.fields) == 1 and isinstance(a.fields[0], T):
+        a = Agg(("countiter",), 0, [a.fields[0]])
+    ok_kinds = (("sliceiter",), ("zipmodel",), ("countiter",))
+    if not (isinstance(a, Agg) and a.kind in ok_kinds and isinstance(b, Agg) and b.kind in ok_kinds):
         return NOT_HANDLED
     return Agg(("zipmodel",), 0, [a, b])
 
@@ -1052,6 +1056,13 @@ def _model_next(it):
         base, i, n = it.fields
         proj = base.proj + ((("i", i.val),) if i.is_const() else (("ix", i),))
         return tm.cmp("ult", i, n), Ref(base.obj, proj, False), Agg(("sliceiter",), 0, [base, tm.binop("add", i, K(1, 64)), n])
+    if it.kind == ("countiter",):
+        cur = it.fields[0]
+        # RangeFrom::next computes the successor when it hands out an element (overflow check in debug builds): only
+        # a concrete counter below the type's maximum is modelled, anything else fails closed
+        if not (cur.is_const() and cur.val < (1 << cur.bits) - 1):
+            raise WalkError("unbounded counter %s may overflow" % (cur,))
+        return tm.TRUE, cur, Agg(("countiter",), 0, [K(cur.val + 1, cur.bits)])
     if it.kind == ("zipmodel",):
         ca, ea, na = _model_next(it.fields[0])
         cb, eb, nb = _model_next(it.fields[1])
